@@ -55,6 +55,7 @@ noncomputable instance instFloatSpecReal : FloatSpec ℝ where
   errTrig := 0
   rnd_mono := fun h => h
   rnd_rep := fun _ => rfl
+  rnd_neg := fun _ => rfl
   rep_rnd := fun _ => trivial
   rnd_err := fun x => by simp; positivity
   rep_val := fun _ => trivial
